@@ -307,7 +307,7 @@ class Sequence(Container, list):
         else:
             if not isinstance(value, Element):
                 value = self.member_schema(value=value)
-                value.parent = self
+            value.parent = self
         list.__setitem__(self, index, value)
 
     def __setslice__(self, i, j, value):
